@@ -413,6 +413,18 @@ func run(sc vlib.Scenario, cfg vsched.Config) (*vsched.Result, vlib.Verdict) {
 	}
 	if res.Outcome != vsched.Completed {
 		v.Inconclusive = "not-completed:" + w.Phase
+		if w.Phase == "run" || w.Phase == "close" {
+			// every call of the harness carries a context: a read / the stream Close that never returns has not
+			// returned the item (C03) / not sent the last acknowledgements before the close request (C04)
+			where := ""
+			for _, t := range res.Alive {
+				if t.ID == 0 || t.Name == "h:reader" {
+					where = kit.SiteFunc(t.Site) + "/" + t.Op
+				}
+			}
+			v.Inconclusive = ""
+			v.Fail(propID+".blocked", fmt.Sprintf("%s@%s/cuts=%d", w.Phase, where, w.cuts), "the scenario never finished (phase %s, %d cuts): parked at %s", w.Phase, w.cuts, where)
+		}
 		return res, v
 	}
 	dev := res.Used[vsched.BudP] > 0
